@@ -1688,7 +1688,22 @@ class HDKey(Key):
 
         :return HDKey:
         """
-        return HDKey.from_seed(Mnemonic().to_seed(passphrase, password), network=network, key_type=key_type,
+        # Validate the checksum with the wordlist of the language of the passphrase, not with the default English list
+        language = Mnemonic.detect_language(passphrase)
+        try:
+            seed = Mnemonic(language).to_seed(passphrase, password)
+        except ValueError:
+            # Words can be part of more than one wordlist (i.e. chinese_simplified and chinese_traditional)
+            seed = None
+            for fn in sorted(Path(BCL_INSTALL_DIR, 'wordlist').glob('*.txt')):
+                try:
+                    seed = Mnemonic(fn.stem).to_seed(passphrase, password)
+                    break
+                except ValueError:
+                    continue
+            if seed is None:
+                raise
+        return HDKey.from_seed(seed, network=network, key_type=key_type,
                                compressed=compressed, encoding=encoding, witness_type=witness_type, multisig=multisig)
 
     @staticmethod
